@@ -590,6 +590,44 @@ def cc2(F, R):
             a = strip_load(deref_addr(b, b.call_args(t, site)[0]))
             results.append((site, ("agg", "Hex", "Vector", (("0", a),))))
     R.floor("CC2", "result constructions in concat()", len(results), 1, b.where())
+    # every value concat() returns is one of those constructions — or a copy of one operand where the other is known to be empty
+    def returned(e, site, depth=0):
+        c = strip_load(e)
+        if c[0] == "phi" and depth < 4:
+            for a in c[1]:
+                returned(a, site, depth + 1)
+            return
+        if c[0] == "agg" and c[1] == "Hex":
+            return
+        if c[0] == "call" and c[1].split("::")[-1] in ("from_vec", "from_slice") and "Hex" in c[1]:
+            return
+        if c[0] == "call" and c[1].split("::")[-1] in ("clone", "to_owned") and c[2] and strip_load(c[2][0]) in (left, right):
+            other = right if strip_load(c[2][0]) == left else left
+            facts = b.facts_at(site)
+            empty = False
+            for f in facts:
+                if f[0] == "in" and f[2] == frozenset([0]):
+                    x = strip_load(f[1])
+                    if (x[0] == "call" and x[1].split("::")[-1] == "len" and "Hex" in x[1] and strip_load(x[2][0]) == other) or \
+                            is_inline_len(x, other):
+                        empty = True
+                if f[0] == "bool" and f[2] is True:
+                    x = strip_load(f[1])
+                    if x[0] == "call" and x[1].split("::")[-1] == "is_empty" and "Hex" in x[1] and strip_load(x[2][0]) == other:
+                        empty = True
+            if empty:
+                R.ok("CC2", b.where(site), "returns a copy of one operand where the other is known to be empty")
+                return
+            R.bad("CC2", "CC2/Hex::concat/returns-one-operand-alone", b.where(site),
+                  "concat() returns a copy of one operand on a path where the other operand is not known to have length 0: "
+                  "the other operand's bytes are lost", {"guards": [show(f, b) for f in sorted(facts, key=repr)]})
+            return
+        R.bad("CC2", "CC2/Hex::concat/result-not-a-recognised-construction", b.where(site),
+              "concat() returns a value that is not built from both operands by one of the recognised constructions",
+              {"value": show(c, b)[:300]})
+    for d in b.defs().get(0, []):
+        dsite = (d[0], d[1])
+        returned(b.expr_rvalue(d[3], dsite) if d[2] == "assign" else b.expr_call(d[3], dsite), dsite)
 
     def content_sides(vec, site):
         """sequence of operand sides making up a byte vector value: initial content, then appends in dominance order"""
